@@ -192,7 +192,7 @@ PROPS = {
         assumptions=["the struct-field resolution / codec construction layer is decided by differential testing, not by theorem"],
     ),
     "C02": dict(
-        lean_modules=["Enc.Props.C02", "Enc.Props.C01Fields"],
+        lean_modules=["Enc.Props.C02", "Enc.Props.C02Any", "Enc.Props.C01Fields"],
         variants=V_DEFAULT, areas=["json.decoder", "json.Parse", "json.Unmarshal", "json.Decoder", "json.constructCodec", "json.constructMapCodec",
                                    "json.constructStructType", "json.appendStructFields", "json.hasNullPrefix", "json.appendToLower", "json.foldRune",
                                    "json.skipSpaces", "json.appendRune", "json.appendCoerceInvalidUTF8", "json.internalParseFlags"],
@@ -231,7 +231,7 @@ PROPS = {
                      "the immutable-value model; only the guard-byte differential on the real code covers it"],
     ),
     "C14": dict(
-        lean_modules=["Enc.Props.C14"],
+        lean_modules=["Enc.Props.C14", "Enc.Props.C02Any"],
         variants=V_DEFAULT, areas=["json.encoder", "json.decoder", "json.Append", "json.Parse", "json.Encoder", "json.Decoder", "json.AppendFlags", "json.ParseFlags"],
         allowed_native=["Enc.Lemmas.Json", "Lemmas.Json"],
         main_theorem="Enc.Props.C14.dynChoice_is_documented_precedence (decision table of decodeDynamicNumber = documented precedence), dynChoice_value",
